@@ -18,7 +18,7 @@ pub fn check(sc: &Scenario, out: &RunOutput) -> OracleResult {
         res.inconclusive = true;
         return res;
     };
-    let evs = w.events();
+    let evs = w.events_effective();
     // E's data: seq -> (len of the last emission, acked?)
     let mut sent: BTreeMap<u16, (usize, bool)> = BTreeMap::new();
     let mut outstanding: i64 = 0;
@@ -42,7 +42,43 @@ pub fn check(sc: &Scenario, out: &RunOutput) -> OracleResult {
     let mut next_unsent: Option<u16> = w.e_first_seq;
     let mut zero_windows = 0u64;
 
-    for (t, _, x) in &evs {
+    // polls in which the retransmission timer expired (rto_retransmissions stepped): what is
+    // sent there is timeout processing, not ordinary sending
+    let mut rto_poll = vec![false; evs.len()];
+    {
+        let mut last_n = 0usize;
+        let mut start = 0usize;
+        for (i, (_, _, x)) in evs.iter().enumerate() {
+            if let X::Snap(s) = x {
+                if s.rto_retransmissions > last_n {
+                    for f in rto_poll.iter_mut().take(i + 1).skip(start) {
+                        *f = true;
+                    }
+                }
+                last_n = s.rto_retransmissions;
+                start = i + 1;
+            }
+        }
+    }
+
+    // state at the end of the poll each event belongs to (a poll that enters loss recovery
+    // retransmits and may send new data under the recovery rules within that same poll)
+    let mut rec_poll = vec![false; evs.len()];
+    {
+        let mut start = 0usize;
+        for (i, (_, _, x)) in evs.iter().enumerate() {
+            if let X::Snap(s) = x {
+                if s.recovering || s.rto_retransmissions > 0 {
+                    for f in rec_poll.iter_mut().take(i + 1).skip(start) {
+                        *f = true;
+                    }
+                }
+                start = i + 1;
+            }
+        }
+    }
+
+    for (i, (t, _, x)) in evs.iter().enumerate() {
         let t = *t;
         if t != t_now {
             if let Some(l) = wnd_now.last() {
@@ -96,6 +132,12 @@ pub fn check(sc: &Scenario, out: &RunOutput) -> OracleResult {
                 in_recovery = s.recovering;
                 rto_mode = s.rto_retransmissions;
             }
+            X::Probe(ProbeEvent::Cc { key, call: CcCall::OnEnterRecovery, .. }) => {
+                if key.is_some_and(|k| k.local == w.e) {
+                    // duplicate acknowledgements / SACK evidence: a loss event
+                    first_loss_seen = true;
+                }
+            }
             X::Probe(ProbeEvent::Cc { key, call: CcCall::OnRto, .. }) => {
                 if key.is_some_and(|k| k.local == w.e) {
                     rto_events += 1;
@@ -147,7 +189,23 @@ pub fn check(sc: &Scenario, out: &RunOutput) -> OracleResult {
                     }
                 }
                 // --- window rules: outside loss recovery only ---------------------------------
-                if in_recovery || rto_mode > 0 {
+                if rto_poll[i] && !in_recovery {
+                    // the retransmission timer fired in this poll and what it "retransmitted" was
+                    // never sent before: new payload, subject to the same window rules
+                    let mut allowed: Option<u32> = wnd_prev;
+                    for wv in &wnd_now {
+                        allowed = Some(allowed.map_or(*wv, |a| a.max(*wv)));
+                    }
+                    if let Some(a) = allowed {
+                        if a == 0 {
+                            res.violate(P, "timer-sends-new-payload-into-zero-window", t, format!("the retransmission timer fired with nothing in flight and seq {} (len {}), never sent before, was transmitted although the last advertised window is zero (since {:?})", p.seq, len, zero_window_since.map(crate::hist::fmt_t)));
+                        } else if outstanding > a as i64 {
+                            res.violate(P, "timer-sends-new-payload-beyond-window", t, format!("the retransmission timer fired and seq {} (len {}), never sent before, was transmitted: {} bytes outstanding, window most recently advertised {}", p.seq, len, outstanding, a));
+                        }
+                    }
+                    continue;
+                }
+                if in_recovery || rto_mode > 0 || rec_poll[i] {
                     continue;
                 }
                 // the window most recently advertised: delivered strictly before now, or at this
@@ -169,9 +227,12 @@ pub fn check(sc: &Scenario, out: &RunOutput) -> OracleResult {
                 }
                 // --- slow start before the first loss event --------------------------------------
                 if !first_loss_seen {
-                    let bound = 2 * largest_payload + acked_bytes;
+                    // two segments of the sender's segment size (at least the smallest segment
+                    // size of the link, whatever the window lets it cut)
+                    let seg = largest_payload.max(w.mss_floor as i64);
+                    let bound = 2 * seg + acked_bytes;
                     if outstanding > bound {
-                        res.violate(P, "slow-start-exceeded", t, format!("before any loss {} bytes are outstanding after sending seq {}; two segments ({} each) plus {} acknowledged bytes allow {}", outstanding, p.seq, largest_payload, acked_bytes, bound));
+                        res.violate(P, "slow-start-exceeded", t, format!("before any loss {} bytes are outstanding after sending seq {}; two segments ({} each) plus {} acknowledged bytes allow {}", outstanding, p.seq, seg, acked_bytes, bound));
                     }
                 }
             }
